@@ -164,6 +164,31 @@ def run(chk):
             chk.violation("a freshly allocated qubit does not read 0 (%s): its index was released, touched through a surviving handle, and handed "
                           "out again without a reset\n%s" % (got, src[-420:]), {"source": src, "draw": 0.5, "kind": "qobj", "clause": "realloc"})
             break
+    # the one thing forced draws cannot show: the random numbers a reset consumes are independent of those of the measurements.  Real
+    # command-line runs with the process generator: a reset of half a Bell pair leaves the partner a fair coin that is independent of a
+    # third, separately measured coin, so "partner == coin" holds in about half of 200 shots.  Judged with a margin that a fair coin
+    # misses with probability below 1e-30 (fewer than 20 of 200); supporting evidence, not a proof.
+    import shutil as _sh, tempfile as _tf
+    import buildlib as _bl
+    import c17 as _c17
+    exe = _bl.build_cli()
+    work = _tf.mkdtemp(prefix="c04_", dir=_bl.BUILD)
+    try:
+        STAT = ["qubit a; qubit b; qubit c; @tracked qubit same; h(a); cx(a, b); h(c); reset a; bit mc = measure c; bit mb = measure b; reset a; reset a; if (mb == mc) { x(same); } bit ms = measure same;",
+                "qubit a; qubit b; qubit c; @tracked qubit same; h(c); h(a); cx(a, b); bit mc = measure c; reset a; bit mb = measure b; if (mb == mc) { x(same); } bit ms = measure same;",
+                "qubit a; qubit b; qubit c; @tracked qubit same; h(a); cx(a, b); reset a; h(c); bit mb = measure b; bit mc = measure c; if (mb == mc) { x(same); } bit ms = measure same;"]
+        for body in (STAT if chk.thorough else STAT[:2]):
+            src = "function main() -> void { %s }" % body
+            rc, out, err, _q = _c17.run_cli(exe, work, src, ["--shots=200"])
+            chk.count(("reset-draw-independence", body))
+            _shots, tables, _pre = _c17.parse_tables(out)
+            rows = {o: c for o, c, _p in tables.get("qubit same", [])}
+            if rc == 0 and (rows.get("0", 0) < 20 or rows.get("1", 0) < 20) and qbad is None and not bad:
+                chk.violation("after resetting half of a Bell pair its partner agrees with an independent coin in %s of 200 shots: the reset's random "
+                              "draws are not independent of the measurements'\n%s" % (rows, src), {"source": src, "args": ["--shots=200"], "kind": "cli-statistics"})
+                break
+    finally:
+        _sh.rmtree(work, ignore_errors=True)
     chk.extra["evaluator_level_programs"] = len(qprogs)
     if qbad:
         qp, ql, w = qbad
@@ -187,4 +212,7 @@ def replay(path):
         out, _ = run_guarded(evallib.harness(), ["run %s 1 %s" % (evallib.hx(_o["source"]), evallib.draws_arg([_o["draw"]] * 400))])
         print(_o["source"]); print(" ->", evallib.split_result(out[0]).get("echo_lines", out[0][:200]), evallib.split_result(out[0]).get("tracked"))
         return 1
+    if _o.get("kind") == "cli-statistics":
+        import c17
+        return c17.replay(path)
     return simlib.generic_replay(path, "reset-locality oracle", oracle_fails)
